@@ -20,8 +20,8 @@ def shards(tier, seed):
     out = SC.shards(tier, seed, q_cases=300)
     q = tier == 'quick'
     # uninitialised reads are invisible to ASan/UBSan: a small share of the workload runs under valgrind memcheck
-    out += [{'name': f'valgrind{k}', 'variant': 'vg', 'build': 'vg', 'valgrind': True, 'cases': 25 if q else 250,
-             'budget_s': 60 if q else 700, 'timeout': 1200, 'kind': 'synthetic'} for k in range(1 if q else 4)]
+    out += [{'name': f'valgrind{k}', 'variant': 'vg', 'build': 'vg', 'valgrind': True, 'cases': 10 if q else 250,
+             'budget_s': 30 if q else 700, 'timeout': 1200, 'kind': 'synthetic'} for k in range(1 if q else 4)]
     return out
 
 
